@@ -247,6 +247,10 @@ def cli_cases(draw):
         form = draw(st.sampled_from(['full', 'full', 'single', 'xy']))
         top = 4 if dim == 2 else 3
         L = [draw(st.integers(2, top)) for _ in range(3)]
+        # two-digit dimensions (threshold studies go to L = 10 ... 20)
+        if draw(st.integers(0, 3)) == 0:
+            L[draw(st.integers(0, dim - 1))] = draw(st.sampled_from([10, 11, 12, 16] if dim == 2
+                                                                   else [10, 12]))
         if form == 'single' or (dim == 3 and form == 'xy'):
             # [L] means L in every direction
             sizes.append(f'{L[0]}')
